@@ -145,6 +145,19 @@ pub fn plan(p: u32, tier: &str) -> Vec<Run> {
             add(rename("rename-prod", Conv::Parts, Cmp::Prod), families::rename_opts(true, Kind::O, false));
             add(rename("rename-test", Conv::JobIds, Cmp::Plain), families::rename_opts(false, Kind::O, false));
             if thorough {
+                // 4 slots: build, one edit with every fault, then the resume / no-op evaluation
+                let mut f4 = s("S4D2-k1-ff+follow", 2, m);
+                f4.edit_bound = Some(1);
+                f4.faults = vec![false, true];
+                f4.follow = true;
+                add(f4, families::slots_full_only(4));
+                let mut lp = s("latepair-faulty-first+follow", 2, m);
+                lp.follow = true;
+                add(lp, families::late_pair());
+                let mut cf = chains(true);
+                cf.follow = true;
+                cf.name = "chains6+follow".into();
+                add(cf, families::chains(6));
                 add(s3d3(), families::slots(3));
                 let mut rm = s("S3D2-remove+follow", 2, m);
                 rm.fail_mode = FailMode::Remove;
@@ -169,6 +182,17 @@ pub fn plan(p: u32, tier: &str) -> Vec<Run> {
             add(chains(true), families::chains(6));
             add(shapes_spec("eph-shapes-D2", 2, false), shapes_named(&eph_shapes));
             if thorough {
+                // thorough: the full 6-job late-requirement family, longer chains, faults in both evaluations
+                add(late("late3x", true), families::late_gadget(3, true));
+                let mut c7 = chains(true);
+                c7.name = "chains7".into();
+                add(c7, families::chains(7));
+                let mut lp = s("latepair-faulty-first+follow", 2, m);
+                lp.follow = true;
+                add(lp, families::late_pair());
+                let mut l2 = s("late2x-faulty-first+follow", 2, m);
+                l2.follow = true;
+                add(l2, families::late_gadget(2, true));
                 add(s3d3(), families::slots(3));
                 add(shapes_spec("shapes-D2+follow", 2, true), families::shapes(true));
                 add(shapes_spec("eph-shapes-D3", 3, false), shapes_named(&["late-requirement", "E-E-O+A", "E-E-O+A-mid"]));
@@ -197,6 +221,19 @@ pub fn plan(p: u32, tier: &str) -> Vec<Run> {
                 add(ig, families::slots_ignore(3));
             }
             if thorough {
+                // 4 slots: build, one edit with every fault, then the resume / no-op evaluation
+                let mut f4 = s("S4D2-k1-ff+follow", 2, m);
+                f4.edit_bound = Some(1);
+                f4.faults = vec![false, true];
+                f4.follow = true;
+                add(f4, families::slots_full_only(4));
+                let mut lp = s("latepair-faulty-first+follow", 2, m);
+                lp.follow = true;
+                add(lp, families::late_pair());
+                let mut cf = chains(true);
+                cf.follow = true;
+                cf.name = "chains6+follow".into();
+                add(cf, families::chains(6));
                 add(s3d3(), families::slots(3));
                 add(noise("S3D3-noise", 3, false, false), families::slots(3));
                 let mut pr = s("S3D2-prod", 2, m);
@@ -222,6 +259,17 @@ pub fn plan(p: u32, tier: &str) -> Vec<Run> {
             add(o, families::slots(3));
             add(shapes_spec("shapes-D2", 2, false), families::shapes(true));
             if thorough {
+                // thorough: the full 6-job late-requirement family, longer chains, faults in both evaluations
+                add(late("late3x", true), families::late_gadget(3, true));
+                let mut c7 = chains(true);
+                c7.name = "chains7".into();
+                add(c7, families::chains(7));
+                let mut lp = s("latepair-faulty-first+follow", 2, m);
+                lp.follow = true;
+                add(lp, families::late_pair());
+                let mut l2 = s("late2x-faulty-first+follow", 2, m);
+                l2.follow = true;
+                add(l2, families::late_gadget(2, true));
                 add(s3d3(), families::slots(3));
                 let mut o = s("S4D1-orders", 1, m);
                 o.orders = Orders::AllNodes;
@@ -244,6 +292,17 @@ pub fn plan(p: u32, tier: &str) -> Vec<Run> {
             add(shapes_spec("shapes-D2", 2, false), families::shapes(true));
             add(rename("rename-prod", Conv::Parts, Cmp::Prod), families::rename_opts(false, Kind::O, false));
             if thorough {
+                // thorough: the full 6-job late-requirement family, longer chains, faults in both evaluations
+                add(late("late3x", true), families::late_gadget(3, true));
+                let mut c7 = chains(true);
+                c7.name = "chains7".into();
+                add(c7, families::chains(7));
+                let mut lp = s("latepair-faulty-first+follow", 2, m);
+                lp.follow = true;
+                add(lp, families::late_pair());
+                let mut l2 = s("late2x-faulty-first+follow", 2, m);
+                l2.follow = true;
+                add(l2, families::late_gadget(2, true));
                 add(s3d3(), families::slots(3));
                 add(noise("S3D3-noise", 3, false, false), families::slots(3));
                 add(s4(true), families::slots(4));
@@ -266,6 +325,17 @@ pub fn plan(p: u32, tier: &str) -> Vec<Run> {
             add(s("S3D2-volatile", 2, m), families::slots_volatile(3));
             add(shapes_spec("shapes-D2", 2, false), families::shapes(true));
             if thorough {
+                // thorough: the full 6-job late-requirement family, longer chains, faults in both evaluations
+                add(late("late3x", true), families::late_gadget(3, true));
+                let mut c7 = chains(true);
+                c7.name = "chains7".into();
+                add(c7, families::chains(7));
+                let mut lp = s("latepair-faulty-first+follow", 2, m);
+                lp.follow = true;
+                add(lp, families::late_pair());
+                let mut l2 = s("late2x-faulty-first+follow", 2, m);
+                l2.follow = true;
+                add(l2, families::late_gadget(2, true));
                 add(s3d3(), families::slots(3));
                 add(s4d2k("S4D2-k1", 1, vec![true, true]), families::slots_full_only(4));
                 add(shapes_spec("shapes-D2+follow", 2, true), families::shapes(true));
@@ -285,6 +355,19 @@ pub fn plan(p: u32, tier: &str) -> Vec<Run> {
                 add(v, families::slots_volatile(3));
             }
             if thorough {
+                // 4 slots: build, one edit with every fault, then the resume / no-op evaluation
+                let mut f4 = s("S4D2-k1-ff+follow", 2, m);
+                f4.edit_bound = Some(1);
+                f4.faults = vec![false, true];
+                f4.follow = true;
+                add(f4, families::slots_full_only(4));
+                let mut lp = s("latepair-faulty-first+follow", 2, m);
+                lp.follow = true;
+                add(lp, families::late_pair());
+                let mut cf = chains(true);
+                cf.follow = true;
+                cf.name = "chains6+follow".into();
+                add(cf, families::chains(6));
                 add(s3d3(), families::slots(3));
                 let mut d3f = s("S3D3-follow-last", 3, m);
                 d3f.follow = true;
@@ -323,6 +406,19 @@ pub fn plan(p: u32, tier: &str) -> Vec<Run> {
             add(rename("rename-prod", Conv::Parts, Cmp::Prod), families::rename_opts(false, Kind::O, false));
             add(noise("S3D2-noise", 2, false, false), families::slots(3));
             if thorough {
+                // 4 slots: build, one edit with every fault, then the resume / no-op evaluation
+                let mut f4 = s("S4D2-k1-ff+follow", 2, m);
+                f4.edit_bound = Some(1);
+                f4.faults = vec![false, true];
+                f4.follow = true;
+                add(f4, families::slots_full_only(4));
+                let mut lp = s("latepair-faulty-first+follow", 2, m);
+                lp.follow = true;
+                add(lp, families::late_pair());
+                let mut cf = chains(true);
+                cf.follow = true;
+                cf.name = "chains6+follow".into();
+                add(cf, families::chains(6));
                 add(s3d3(), families::slots(3));
                 add(noise("S3D3-noise", 3, false, false), families::slots(3));
                 add(shapes_spec("shapes-D2+follow", 2, true), families::shapes(true));
@@ -338,6 +434,19 @@ pub fn plan(p: u32, tier: &str) -> Vec<Run> {
             rn.follow = true;
             add(rn, families::rename_opts(false, Kind::O, false));
             if thorough {
+                // 4 slots: build, one edit with every fault, then the resume / no-op evaluation
+                let mut f4 = s("S4D2-k1-ff+follow", 2, m);
+                f4.edit_bound = Some(1);
+                f4.faults = vec![false, true];
+                f4.follow = true;
+                add(f4, families::slots_full_only(4));
+                let mut lp = s("latepair-faulty-first+follow", 2, m);
+                lp.follow = true;
+                add(lp, families::late_pair());
+                let mut cf = chains(true);
+                cf.follow = true;
+                cf.name = "chains6+follow".into();
+                add(cf, families::chains(6));
                 let mut d3f = s("S3D3+follow-last", 3, m);
                 d3f.follow = true;
                 d3f.faults = vec![true, true, false];
@@ -358,6 +467,17 @@ pub fn plan(p: u32, tier: &str) -> Vec<Run> {
             add(chains(true), families::chains(6));
             add(shapes_spec("shapes-D2", 2, false), families::shapes(true));
             if thorough {
+                // thorough: the full 6-job late-requirement family, longer chains, faults in both evaluations
+                add(late("late3x", true), families::late_gadget(3, true));
+                let mut c7 = chains(true);
+                c7.name = "chains7".into();
+                add(c7, families::chains(7));
+                let mut lp = s("latepair-faulty-first+follow", 2, m);
+                lp.follow = true;
+                add(lp, families::late_pair());
+                let mut l2 = s("late2x-faulty-first+follow", 2, m);
+                l2.follow = true;
+                add(l2, families::late_gadget(2, true));
                 add(s3d3(), families::slots(3));
                 add(s4d2k("S4D2-k1", 1, vec![true, true]), families::slots_full_only(4));
                 let mut s5 = s("S5D1-full", 1, m);
@@ -448,6 +568,17 @@ pub fn plan(p: u32, tier: &str) -> Vec<Run> {
             add(s("S3D2-volatile", 2, m), families::slots_volatile(3));
             add(shapes_spec("shapes-D2", 2, false), families::shapes(true));
             if thorough {
+                // thorough: the full 6-job late-requirement family, longer chains, faults in both evaluations
+                add(late("late3x", true), families::late_gadget(3, true));
+                let mut c7 = chains(true);
+                c7.name = "chains7".into();
+                add(c7, families::chains(7));
+                let mut lp = s("latepair-faulty-first+follow", 2, m);
+                lp.follow = true;
+                add(lp, families::late_pair());
+                let mut l2 = s("late2x-faulty-first+follow", 2, m);
+                l2.follow = true;
+                add(l2, families::late_gadget(2, true));
                 add(s3d3(), families::slots(3));
                 add(s4d2k("S4D2-k1", 1, vec![true, true]), families::slots_full_only(4));
                 add(s("S3D2-volatile", 2, m), families::slots_volatile(3));
@@ -706,6 +837,12 @@ pub fn cmd_replay(args: &[String]) -> i32 {
             return 2;
         }
     };
+    // C19 replays name one instance of the big-graph family
+    if let Some(v) = std::fs::read_to_string(path).ok().and_then(|s| serde_json::from_str::<serde_json::Value>(&s).ok()) {
+        if v.get("big_instance").is_some() {
+            return crate::big::replay(&v, path);
+        }
+    }
     let rf: ReplayFile = match std::fs::read_to_string(path).ok().and_then(|s| serde_json::from_str(&s).ok()) {
         Some(x) => x,
         None => {
